@@ -155,6 +155,28 @@ fn note_boundaries(b: &mut BTreeMap<String, u64>, counts: &mut BTreeSet<usize>, 
         let k = if info.nhm == n { "nhm=n".to_string() } else if info.nhm == 1 { "nhm=1".to_string() } else if info.nhm + 1 == n { "nhm=n-1".to_string() } else { format!("nhm={}", info.nhm) };
         bump(b, &format!("hmtx.n>=31.{}", k), 1);
     }
+    // Size of the glyf table a decoder that writes glyphs the plain way produces (what allsorts does: simple
+    // glyph = 12 + 2 * contours + instructions + 5 * points, composite = as stored, each padded to even).
+    // Derived from the INPUT only, so that the counters say what the generator reached even when decoding fails.
+    let plain: usize = info
+        .recs
+        .iter()
+        .map(|g| {
+            let l = match g.kind {
+                Kind::Empty => 0,
+                Kind::Simple => 12 + 2 * g.ends.len() + g.instr.len() + 5 * g.pts.len(),
+                Kind::Composite => 10 + g.comps.iter().map(|c| glyph::comp_bytes(c).len()).sum::<usize>() + if g.has_instr_flag() { 2 + g.instr.len() } else { 0 },
+            };
+            (l + 1) & !1
+        })
+        .sum();
+    if plain > 131000 {
+        bump(b, &format!("loca.plain_glyf{}131070", if plain < 131070 { "<" } else if plain == 131070 { "=" } else { ">" }), 1);
+        bump(b, &format!("loca.plain_glyf_over_131000.source_{}", if info.src_loca_long { "long" } else { "short" }), 1);
+        if plain > 131070 && !info.src_loca_long {
+            bump(b, "loca.plain_glyf>131070.source_short", 1);
+        }
+    }
     for g in &info.recs {
         let mut prev: i64 = -1;
         for &e in &g.ends {
@@ -513,6 +535,15 @@ fn record_case(r: &mut Rec, case: &str, srcs: &[SrcFont], ch: &Choices, rng: &mu
     for (k, info) in e.fonts.iter().enumerate() {
         bump(tally, if info.glyf_transformed { "fonts_glyf_transformed" } else if !info.recs.is_empty() { "fonts_glyf_null_transform" } else { "fonts_without_glyf" }, 1);
         bump(tally, &format!("fonts_hmtx_flags_{}", info.hmtx_flags), 1);
+        if info.glyf_transformed && info.n >= 31 && [0usize, 1, 31].contains(&(info.n % 32)) {
+            bump(tally, &format!("fonts_glyf_transformed_glyph_count_mod32_{}", info.n % 32), 1);
+            if info.per.iter().any(|s| s.bit) {
+                bump(tally, &format!("fonts_glyf_transformed_glyph_count_mod32_{}_with_explicit_bbox", info.n % 32), 1);
+            }
+        }
+        if info.glyf_transformed && info.n > 65000 {
+            bump(tally, "fonts_glyf_transformed_more_than_65000_glyphs", 1);
+        }
         if info.hmtx_flags & 2 != 0 && info.nhm < info.n {
             bump(tally, "fonts_elided_tail_lsb_with_nhm_lt_n", 1);
         }
@@ -520,7 +551,9 @@ fn record_case(r: &mut Rec, case: &str, srcs: &[SrcFont], ch: &Choices, rng: &mu
             bump(tally, &format!("note:{}", info.note.split(':').next().unwrap_or("")), 1);
         }
         let want: Vec<u32> = info.expect.iter().map(|t| t.0).collect();
-        let a = json!({"font": k, "ch": ch.to_json(), "glyf_transformed": info.glyf_transformed as u8, "hmtx_flags": info.hmtx_flags, "bytes": e.bytes.len()});
+        // `huge`: the glyph count is one for which numGlyphs + 31 does not fit 16 bits (part of the judge's key)
+        let a = json!({"font": k, "ch": ch.to_json(), "glyf_transformed": info.glyf_transformed as u8, "hmtx_flags": info.hmtx_flags, "bytes": e.bytes.len(),
+            "huge": (info.glyf_transformed && info.n > 65504) as u8});
         let tables = match obs::decode_tables(&e.bytes, k, &want) {
             Ok(t) => {
                 r.ev(case, "Decode", a, json!({"ok": true, "err": ""}));
@@ -621,7 +654,7 @@ fn record_fixture(r: &mut Rec, path: &str, tally: &mut BTreeMap<String, u64>) {
     let d = match obs::read_directory(&bytes) {
         Ok(d) => d,
         Err(x) => {
-            r.ev(&case, "Decode", json!({"font": 0, "fixture": name}), json!({"ok": false, "err": x}));
+            r.ev(&case, "Decode", json!({"font": 0, "fixture": name, "huge": 0}), json!({"ok": false, "err": x}));
             return;
         }
     };
@@ -641,11 +674,11 @@ fn record_fixture(r: &mut Rec, path: &str, tally: &mut BTreeMap<String, u64>) {
     for k in 0..nfonts {
         let tables = match obs::decode_tables(&bytes, k, &[]) {
             Ok(t) => {
-                r.ev(&case, "Decode", json!({"font": k, "fixture": name}), json!({"ok": true, "err": ""}));
+                r.ev(&case, "Decode", json!({"font": k, "fixture": name, "huge": 0}), json!({"ok": true, "err": ""}));
                 t
             }
             Err(x) => {
-                r.ev(&case, "Decode", json!({"font": k, "fixture": name}), json!({"ok": false, "err": x}));
+                r.ev(&case, "Decode", json!({"font": k, "fixture": name, "huge": 0}), json!({"ok": false, "err": x}));
                 continue;
             }
         };
@@ -771,6 +804,24 @@ fn record(seed: u64, tier: &str, out: &str) {
     }
     let (budget, max_n, n_cff, n_aots, variants, glyph_cap) = if quick { (2_500_000usize, 22usize, 2usize, 8usize, 2usize, 40usize) } else { (usize::MAX, usize::MAX, 6, 60, 3, 150) };
     let mut used = 0usize;
+    // Selected by PROPERTY, not by name: glyf fonts whose glyph count sits on the bboxBitmap word boundary
+    // (numGlyphs mod 32 = 0, and one neighbour on each side), smallest first; quick takes at most two
+    // multiples of 32, thorough all of them. How many the repository offers is reported in the tally.
+    let glyph_count = |p: &str| -> Option<usize> { load_sfnt(p).and_then(|f| f.get("maxp").and_then(|m| fontgen::be16(m, 4))).map(|n| n as usize) };
+    let mut by_size: Vec<(String, usize)> = glyf_fonts.iter().filter(|x| !x.0.contains("/tests/aots/")).cloned().collect();
+    by_size.sort_by(|a, b| (a.1, &a.0).cmp(&(b.1, &b.0)));
+    let counts: Vec<(String, usize, usize)> = by_size.iter().filter_map(|(p, sz)| glyph_count(p).map(|n| (p.clone(), *sz, n))).collect();
+    for (residue, name, cap) in [(0usize, "multiple_of_32", if quick { 2usize } else { usize::MAX }), (1, "multiple_of_32_plus_1", 1), (31, "multiple_of_32_minus_1", 1)] {
+        let avail: Vec<&(String, usize, usize)> = counts.iter().filter(|x| x.2 >= 31 && x.2 % 32 == residue).collect();
+        bump(&mut tally, &format!("repository_glyf_fonts_with_glyph_count_{}", name), avail.len() as u64);
+        for x in avail.into_iter().take(cap) {
+            if !selected.contains(&x.0) && (!quick || x.1 <= 1_000_000) {
+                used += x.1;
+                selected.push(x.0.clone());
+                bump(&mut tally, &format!("selected_glyph_count_{}", name), 1);
+            }
+        }
+    }
     for (p, sz) in &glyf_fonts {
         if selected.contains(p) {
             continue;
@@ -816,6 +867,31 @@ fn record(seed: u64, tier: &str, out: &str) {
             record_case(&mut r, &case, &members, &ch, &mut rng, glyph_cap / 2, &mut tally);
         }
         prev = Some(src);
+    }
+    // 4. synthetic fonts at the upper end of the glyph count: 65504 = 32 * 2047 (the last count for which
+    // numGlyphs + 31 still fits 16 bits), 65505 and 65535. Nearly all glyphs are empty; the few that are not
+    // sit at both ends of the bboxBitmap (simple with a box that is not tight, composite, plain dot).
+    for &n in &[65504usize, 65505, 65535] {
+        let dot = |j: i16, loose: bool| GlyphRec { kind: Kind::Simple, ends: vec![0], pts: vec![(j, 2 * j + 1, true)], instr: vec![], bbox: if loose { [j - 2, 2 * j, j + 1, 2 * j + 3] } else { [j, 2 * j + 1, j, 2 * j + 1] }, comps: vec![] };
+        let comp = |j: i16| GlyphRec { kind: Kind::Composite, ends: vec![], pts: vec![], instr: vec![], bbox: [j, -j, 300 + j, 400], comps: vec![glyph::Comp { flags: 2, gid: 1, a1: 5, a2: -3, tr: vec![] }] };
+        let mut glyphs = vec![GlyphRec::empty(); n];
+        glyphs[1] = dot(10, false);
+        glyphs[2] = dot(20, true);
+        glyphs[31] = comp(3);
+        glyphs[32] = dot(30, true);
+        glyphs[n - 33] = dot(40, false);
+        glyphs[n - 32] = comp(4);
+        glyphs[n - 2] = dot(50, true);
+        glyphs[n - 1] = comp(5);
+        let lsb: Vec<i16> = glyphs.iter().map(|g| g.x_min()).collect();
+        let f = synth::AbstractFont { glyphs, nhm: 1, adv: vec![500; n], lsb };
+        let src = synth::build(&f, false, 0, 0, 13);
+        // (hmtx is left untransformed: an Hmtx event of 65535 glyphs would cost the judge more than it tells)
+        for (v, bb) in [(0usize, "needed"), (1, "all")] {
+            let ch = Choices { glyf: 0, hmtx: 0, trip: "ref".into(), u16p: "short".into(), bbox: bb.into(), order: "asis".into(), tags: "known".into(), overlap: v == 1, chunk: 65536 };
+            bump(&mut tally, "synthetic_big_fonts", 1);
+            record_case(&mut r, &format!("synthetic:{}glyphs#{}", n, v), std::slice::from_ref(&src), &ch, &mut rng, 24, &mut tally);
+        }
     }
     let events = r.i;
     let counts = r.counts.clone();
